@@ -341,6 +341,10 @@ def addLocal (name : String) : P Bool := do
   modifyCompiler fun c => { c with locals := c.locals.push { name := name, depth := none } }
   return true
 
+/-- The hidden locals (`super`, the iterator of a `for` loop): counted against the limit like any other (repair F40). -/
+def addHiddenLocal (name : String) : P Unit := do
+  if !(← addLocal name) then error "Too many variables in function."
+
 def markInitialisedAt (i : Nat) : P Unit :=
   modifyCompiler fun c =>
     if i < c.locals.size then { c with locals := c.locals.modify i fun l => { l with depth := some c.scopeDepth } }
